@@ -8,7 +8,7 @@ use super::{
 };
 use crate::{
     attr::{parse_assign_str, EnumAttr, Inflection, VariantAttr},
-    utils::{parse_attrs, parse_docs},
+    utils::{escape_string, parse_attrs, parse_docs},
 };
 
 #[derive(Default, Clone)]
@@ -38,6 +38,9 @@ impl StructAttr {
 
         let docs = parse_docs(attrs)?;
         result.docs = docs;
+
+        // `tag` only ever appears between double quotes
+        result.tag = result.tag.map(|tag| escape_string(&tag));
 
         Ok(result)
     }
